@@ -129,7 +129,7 @@ func vfGenWireErr(r *verifkit.Rand, allowInvalidUTF8 bool) *vfWireErr {
 	case 1:
 		e.Message = "plain ascii message"
 	case 2:
-		e.Message = "100% sure %41 %zz %"
+		e.Message = verifkit.Pick(r, []string{"100% sure %41 %zz %", "1+1=2 & a+b; c%2Bd +", "query=like?x=1&y=2+3#frag", "semi;colon,comma \"quote\" back\\slash"})
 	case 3:
 		e.Message = "ünïcödé ✓ 漢字 😀"
 	case 4:
